@@ -29,6 +29,7 @@ TEMPLATES = {
     'strretain': ('strretain.vtmpl', 'src/collections/string.rs'),
     'drainfilter': ('drainfilter.vtmpl', 'src/collections/vec.rs'),
     'intoiter': ('intoiter.vtmpl', 'src/collections/vec.rs'),
+    'dedup': ('dedup.vtmpl', 'src/collections/vec.rs'),
 }
 
 
